@@ -136,7 +136,7 @@ pub fn generate(a: &Args) {
     let work = std::path::Path::new(&a.out).parent().unwrap().to_str().unwrap().to_string();
     let mut cfgs: Vec<Value> = vec![];
     let ws: Vec<usize> = if th { vec![1, 2, 3, 5, 8, 16] } else { vec![1, 2, 3, 8] };
-    let reps = if th { 16 } else { 3 };
+    let reps = if th { 40 } else { 3 };
     for &w in &ws {
         for rep in 0..reps {
             let bch = if rep % 3 == 1 { 2 } else { 0 };
